@@ -31,7 +31,7 @@ ASSUMPTIONS = [
     'finding), 0^0, 0^negative, negative^fraction, overflow',
 ]
 FLOORS = {'evaluate_outcomes': 2000, 'pairs_seen': 144,
-          'reassigned_evaluations': 300,
+          'reassigned_evaluations': 300, 'two_sheet_evaluations': 300,
           'rendering_groups': 500}
 ANCHOR_FUNCS = {
     'xlcalculator/parser.py': ['FormulaParser.shunting_yard',
@@ -185,6 +185,57 @@ class Runner:
             for grp in groups.values():
                 self.judge(wb, asg, grp)
         self.reassigned(q, list(by_asg))
+        self.two_sheets(q, list(by_asg))
+
+    def two_sheets(self, q, asgs):
+        """the same formula TEXTS on two sheets of one workbook, each sheet
+        with its own cell values (an unqualified reference means the sheet of
+        the cell that holds the formula)"""
+        ctx = self.ctx
+        rng = ctx.rng
+        items = [it for it in q if _has_ref(it[0])]
+        if len(items) < 2 or len(asgs) < 2:
+            return
+        items = rng.sample(items, min(len(items), 25))
+        a1, a2 = rng.sample(asgs, 2)
+        texts = ['=' + ref.render(it[0], 'minimal') for it in items]
+        cells = {}
+        for sheet, asg in (('Sheet1', a1), ('Data', a2)):
+            for c, v in zip(CELLS, asg):
+                cells[f'{sheet}!{c}'] = v
+            for i, t in enumerate(texts):
+                cells[f'{sheet}!ZZ{i + 1}'] = t
+        try:
+            from xlcalculator import Evaluator
+            ev = Evaluator(subject.compile_dict(cells))
+        except Exception:  # noqa
+            return
+        order = [(sh_, i) for sh_ in ('Sheet1', 'Data')
+                 for i in range(len(texts))]
+        rng.shuffle(order)
+        wbs = {}
+        for sheet, asg in (('Sheet1', a1), ('Data', a2)):
+            wbs[sheet] = (asg, ref.Workbook({('Sheet1', i + 1, 1): v
+                                             for i, v in enumerate(asg)}))
+        for sheet, i in order:
+            asg, wb = wbs[sheet]
+            got = subject.outcome_of(
+                lambda: ev.evaluate(f'{sheet}!ZZ{i + 1}'))
+            expect = ref_value(wb, items[i][0])
+            if expect[0] == 'undecided':
+                continue
+            ctx.event('two_sheet_evaluations')
+            if got[0] == 'value' and values_equal(got[1], expect[1]):
+                continue
+            kf = self.attribute(wb, items[i][0], got)
+            ctx.fail(f'{texts[i]} on sheet {sheet} (the same text stands on '
+                     f'both sheets; {sheet} holds {dict(zip(CELLS, asg))}): '
+                     f'observed {got}, reference {expect[1]}',
+                     {'formula': texts[i], 'sheet': sheet,
+                      'cells': {f'{s_}!{c}': v for s_, (a_, _) in wbs.items()
+                                for c, v in zip(CELLS, a_)},
+                      'observed': got, 'reference': expect[1]},
+                     kf=kf, monitor='two-sheets-one-text')
 
     def reassigned(self, q, asgs):
         """the same compiled formulas under re-assigned inputs: one model, one
